@@ -3,7 +3,7 @@
    rendered comment (+ framing bit)) and info.size = file size - len(old packet); its answer n is the number of zero
    bytes appended (none for n <= 0); no callback (None) means the default policy (Gen.Gen_tags._get_padding, regenerated
    from mutagen/_tags.py); with an Opus tail to preserve the callback is not consulted and nothing is appended; OggFLAC
-   has no padding.  (b) the padding the independent reader measures behind the comment of the new packet is max 0 n:
+   has no padding (and refuses a comment of 2^24 bytes or more).  (b) the padding the independent reader measures behind the comment of the new packet is max 0 n:
    C01_ogg_packet / C01_ogg_save_partial state it (restated here for the packet).  (c) a callback that returns the
    padding it is offered reproduces the packet (C07_ogg). *)
 From Coq Require Import ZArith List Bool Lia.
@@ -16,7 +16,7 @@ Open Scope Z_scope.
 Theorem C09_ogg_arithmetic : forall c t pad cb fsize old d, ogg_f_new_packet c t pad cb fsize old = Ok d ->
   vc_valid t = true /\ vc_fits32 t = true /\
   match c with
-  | OFlac => zlen (vc_render t) < U32 /\ d = ztake 1 old ++ be_encode 3 (zlen (vc_render t)) ++ vc_render t
+  | OFlac => zlen (vc_render t) <= MAXSZ /\ d = ztake 1 old ++ be_encode 3 (zlen (vc_render t)) ++ vc_render t
   | _ => (c = OOpus /\ pad <> [] /\ d = ogg_vdata c t ++ pad) \/
          ((c <> OOpus \/ pad = []) /\
           d = ogg_vdata c t ++ zeros (_get_padding cb (zlen old - zlen (ogg_vdata c t)) (fsize - zlen old)))
